@@ -1,7 +1,7 @@
 (* C02 - DER and CER round trip; canonical output accepted by every wider decoder.  Statements only. *)
 From PV Require Import Base.Bytes Model.Tag Model.Types Model.TableTypes Model.Enc Model.Dec Gen.Tables
      Proofs.TableFacts Proofs.TagsetShape Proofs.RoundTrip1 Proofs.RoundTrip2 Proofs.RoundTrip3b Proofs.RoundTrip3e Proofs.RoundTrip3f
-     Proofs.RoundTripModesC Proofs.RoundTripModes.
+     Proofs.RoundTripModesC Proofs.RoundTripModes Proofs.RoundTripModes3.
 Local Open Scope N_scope.
 
 (* On the regenerated dispatch tables: every DER decoder entry is the CER entry or differs from
@@ -80,3 +80,13 @@ Proof.
   exists (TSeq [(Opt, TSeqOf TInt); (Req, TNull)]), (VRec [Some (VList []); Some VNull]), [48; 2; 5; 0], (VRec [None; Some VNull]).
   split; [vm_compute; reflexivity|]. split; [vm_compute; reflexivity|]. vm_compute. discriminate.
 Qed.
+
+(* CER round trip over the whole universe, SET OF included (compared as a multiset), decoders CER and BER *)
+Theorem C02_cer_roundtrip_stage3 : forall cd d k T v b tl,
+  dec_ok cd -> stage3_ty true CER T = true -> RoundTripModes.no_f01 T = true ->
+  stage3_val CER cd T v = true -> anys_ok T v = true ->
+  encode CER d k T v = Ok b -> N.of_nat (length b) <= index_max ->
+  exists v', decode cd (Some T) (b ++ tl) = Ok (DV T v', tl) /\ aeq (abs T v') (abs T v)
+             /\ (agoodb (abs T v) = true -> aval_eqb (abs T v) (abs T v') = true).
+Proof. exact roundtrip_cer_encoder_stage3_setof. Qed.
+Print Assumptions C02_cer_roundtrip_stage3.
